@@ -736,10 +736,10 @@ func c07sRun(c c07sCase, res map[string]any) {
 	res["why"] = why
 }
 
-// Outcome of one session id, as a small number (the Coq side checks it against the outcomes of the model):
+// Outcome of one session id, as a small number (the Coq side checks it against the outcomes of model/C07_Birth.v):
 //   bit 0 hook called   1 New logged   2 dialed   3 dial ok   4 first datagram written
-//   bit 5 Close(nil) BEFORE the connection was lost   6 Close(nil) after   7 Close(err)
-//   bits 8.. kind
+//   bit 5 Close(nil) BEFORE the connection was lost   6 Close(nil) only after   7 Close(err)
+//   bits 8-9 number of Close events (3: three or more)   bits 10.. kind
 func c07sCode(s *c07sSlot) int {
 	b := func(x bool, k uint) int {
 		if x {
@@ -748,8 +748,12 @@ func c07sCode(s *c07sSlot) int {
 		return 0
 	}
 	early := s.earlyNil.Load() > 0
+	nc := int(s.closeNil.Load() + s.closeErr.Load())
+	if nc > 3 {
+		nc = 3
+	}
 	return b(s.hookN.Load() > 0, 0) | b(s.newN.Load() > 0, 1) | b(s.dialN.Load() > 0, 2) | b(s.dialOk.Load() > 0, 3) | b(s.writeN.Load() > 0, 4) |
-		b(early, 5) | b(s.closeNil.Load() > 0 && !early, 6) | b(s.closeErr.Load() > 0, 7) | int(s.kind)<<8
+		b(early, 5) | b(s.closeNil.Load() > 0 && !early, 6) | b(s.closeErr.Load() > 0, 7) | nc<<8 | int(s.kind)<<10
 }
 
 func c07sVerdict(env *c07sEnv, wedged bool, fail func(string), res map[string]any) {
